@@ -269,6 +269,11 @@ impl ShmReader {
             // SAFETY: `ceb_at` has been checked to be valid while creating the ShmReader
             let snapshot = unsafe { self.ceb_shm.read_volatile() };
 
+            // The Acquire load below only orders what comes *after* it. Without this fence the
+            // reads of the clock error bound data above may be satisfied after the generation
+            // number has been re-read, and an update that raced with them would go unnoticed.
+            atomic::fence(atomic::Ordering::Acquire);
+
             // Confirm no update occurred during the read
             let second_gen = generation.load(atomic::Ordering::Acquire);
             if first_gen == second_gen {
